@@ -413,6 +413,8 @@ def run(ctx):
         if tup[0] == "aggr" and tup[1] == ("tuple",) and len(tup[2]) == 2:
             c = tup[2][1]
             IDX = c[2] if c[0] == "cast" and c[1] == "IntToInt" and c[3] == "u32" else None
+            if IDX is None and c[0] in ("unwrap", "expect") and c[1][0] == "call" and "TryFrom<usize> for u32" in str(c[1][1]) and len(c[1][2]) == 1:
+                IDX = c[1][2][0]          # `u32::try_from(i).expect(..)`: the same number where it returns (its panic site is P's)
     if IDX is None:
         ctx.fail("X", "5:some", "success returns (header slice, i as u32) with i the index the search found", A.site(), "no exit of that shape: %s" % ex)
         sr = Search()
@@ -559,7 +561,8 @@ def run(ctx):
                 sl_ = SL.Norm([f for f in pc if f[0] == "cmp"], A).unref(sl_)
                 Bs, lo, hi = SL.as_sub(sl_)
                 slice_ok = sl_[0] == "sub" and Bs == BUF and SL.same(lo, iN) and SL.same(hi, SL.add(iN, HL))
-                idx_ok = ix == ("cast", "IntToInt", iN, "u32")
+                idx_ok = ix == ("cast", "IntToInt", iN, "u32") or \
+                    (ix[0] in ("unwrap", "expect") and ix[1][0] == "call" and "TryFrom<usize> for u32" in str(ix[1][1]) and ix[1][2] == (iN,))
                 conds = found(e) and al_buf in pc and aligned(pc, True) and ent(pc, ("cmp", "Le", SL.add(iN, ("c", 12)), NLEN)) and \
                     ent(pc, ("cmp", "Le", SL.add(iN, HL), NLEN))
                 good = slice_ok and idx_ok and conds
